@@ -145,6 +145,10 @@ type Fault struct {
 	Kind string `json:"kind"`
 	Nth  int    `json:"nth"`
 	Node string `json:"node,omitempty"`
+	// Count: this many consecutive matching calls fail from the Nth on (0 or 1 = one call)
+	Count int `json:"count,omitempty"`
+	// Code: AWS error code of the injected failure ("" = InternalFailure), e.g. Throttling
+	Code string `json:"code,omitempty"`
 	seen int
 	Hits int `json:"-"`
 }
@@ -153,7 +157,9 @@ type Fault struct {
 type Journal struct {
 	Entries []Entry
 	Faults  []*Fault
-	seq     int
+	// LastCode is the error code asked for by the fault that fired last
+	LastCode string
+	seq      int
 }
 
 // NewJournal returns an empty journal.
@@ -208,9 +214,14 @@ func (j *Journal) ShouldFail(kind, node string) bool {
 		if f.Node != "" && f.Node != node {
 			continue
 		}
-		if f.Nth < 0 || f.seen == f.Nth {
+		n := f.Count
+		if n < 1 {
+			n = 1
+		}
+		if f.Nth < 0 || (f.seen >= f.Nth && f.seen < f.Nth+n) {
 			f.Hits++
 			fail = true
+			j.LastCode = f.Code
 		}
 		f.seen++
 	}
